@@ -72,11 +72,15 @@ Terminal == pc = "recur" /\ k = N
 \* ---- C07 -----------------------------------------------------------------------------------------------
 \* the i-th cycle (0-based) starts no earlier than i tocks of real time after the run started
 NeverEarly == \A i \in DOMAIN starts : starts[i] - runStart >= (i - 1) * tock
-\* lossless waiting: without clock jumps during the run, a cycle starts exactly at its deadline unless the
-\* previous cycle's work ran past it (then immediately), plus the overshoot of that cycle's first sleep
+\* lossless waiting: a cycle starts exactly at its deadline unless the previous cycle's work ran past it (then
+\* immediately), plus the overshoot of that cycle's first sleep.  Required for every run whose backward jumps are
+\* all fully detectable: a jump is fully detectable when no time passed between the clock read that began the cycle
+\* and the jump (work of duration 0), so the next read sees the whole step.  A jump hidden behind elapsed time (after
+\* real work, or during a sleep) is partly or wholly invisible to any timer and may delay (never hasten) later cycles.
 JumpsInRun == \E i \in DOMAIN env : env[i].a # "pre" /\ env[i].j > 0
+HiddenJump == \E i \in DOMAIN env : env[i].a # "pre" /\ env[i].j > 0 /\ ~(env[i].a = "work" /\ env[i].dt = 0)
 Max(a, b) == IF a > b THEN a ELSE b
-NoDrift == (~JumpsInRun) =>
+NoDrift == (~HiddenJump) =>
              \A i \in DOMAIN starts : (i > 1 /\ i - 1 \in DOMAIN ovs) =>
                  starts[i] = Max(runStart + (i - 1) * tock, ends[i - 1]) + ovs[i - 1]
 ====
